@@ -231,9 +231,20 @@ func (p *GleecePipeline) Validate() ([]diagnostics.EntityDiagnostic, error) {
 
 func (p *GleecePipeline) getControllers() []metadata.ControllerMeta {
 	controllerNodes := p.symGraph.FindByKind(common.SymKindController)
-	return linq.Map(controllerNodes, func(node *symboldg.SymbolNode) metadata.ControllerMeta {
+	controllers := linq.Map(controllerNodes, func(node *symboldg.SymbolNode) metadata.ControllerMeta {
 		return node.Data.(metadata.ControllerMeta)
 	})
+
+	// The graph hands nodes back in map order. Import serials are assigned first-come during reduction
+	// and diagnostics are emitted per controller, so fix the order before anyone consumes it
+	slices.SortStableFunc(controllers, func(a, b metadata.ControllerMeta) int {
+		if byName := strings.Compare(a.Struct.Name, b.Struct.Name); byName != 0 {
+			return byName
+		}
+		return strings.Compare(a.Struct.PkgPath, b.Struct.PkgPath)
+	})
+
+	return controllers
 }
 
 func (p *GleecePipeline) reduceControllers(controllers []metadata.ControllerMeta) ([]definitions.ControllerMetadata, error) {
